@@ -348,4 +348,54 @@ func ruleExpectResults(c *Ctx, a *parserAnchors) {
 
 var lexerRulesArmed = false
 
-func ruleUnterminatedObservable(c *Ctx) {}
+// R12.5: a token of a delimited literal class (string / backtick string) may only be built when the scanner is known
+// to have stopped on the closing delimiter, i.e. when the current byte cannot be 0 (end of input).
+func ruleUnterminatedObservable(c *Ctx) {
+	lf := c.lexFacts()
+	la := lexerAnchors(c)
+	tc := c.tokenConsts()
+	if len(lf.problems) > 0 || la.input == nil {
+		c.unres("lexer anchors", token.NoPos, "byte-set analysis of the lexer not available")
+		return
+	}
+	illegal := tc.byName["ILLEGAL"]
+	n := 0
+	for _, cx := range lf.contextsOf(lf.base) {
+		allInstrs(lf.base, func(_ *ssa.BasicBlock, _ int, in ssa.Instruction) {
+			call, ok := in.(*ssa.Call)
+			if !ok || !namedIs(call.Type(), "token", "Token") || len(call.Call.Args) < 3 {
+				return
+			}
+			// literal produced by a delimited scanner: a lexer method returning string that advances and does not slice the input
+			lit := resolve(call.Call.Args[2])
+			src, ok := lit.(*ssa.Call)
+			if !ok {
+				return
+			}
+			sc := src.Call.StaticCallee()
+			if sc == nil || sc.Pkg != lf.base.Pkg || !lf.mayAdvance(sc) || isSliceScannerCall(src, la) {
+				return
+			}
+			tt, isConst := constInt64(unwrap(call.Call.Args[1]))
+			n++
+			name := "<computed>"
+			if isConst {
+				name = tc.name(tt)
+			}
+			key := fmt.Sprintf("%s: %s token from %s #%d", fnName(lf.base), name, sc.Name(), n)
+			st := cx.before[call]
+			if st == nil || !st.live {
+				c.unres(key, call.Pos(), "construction site not reached by the analysis")
+				return
+			}
+			if isConst && tt == illegal {
+				c.ok(key, call.Pos(), "the unterminated case is reported as an ILLEGAL token")
+				return
+			}
+			c.check(!st.cur.has(0), key, call.Pos(), fmt.Sprintf("built only when the scanner stopped on the closing delimiter (current byte %s)", st.cur), fmt.Sprintf("the token is built although the scanner may have stopped at end of input (current byte %s): the end-of-input exit and the closing-delimiter exit of %s are indistinguishable downstream, so a literal truncated by the end of the file is accepted silently", st.cur, sc.Name()))
+		})
+	}
+	if n == 0 {
+		c.unres("delimited literal tokens", lf.base.Pos(), "no token built from a delimited scanner found")
+	}
+}
